@@ -31,7 +31,7 @@ QSPEC = b"|&;<>(){}`*?+[]=%"
 SINGLES = {"SQ": 0x27, "BS": 0x5C, "DQ": 0x22, "DOLLAR": 0x24, "HASH": 0x23, "SP": 0x20, "TAB": 0x09, "NL": 0x0A,
            "CR": 0x0D, "TILDE": 0x7E}
 ALL_CLASSES = ["INERT", "QSPEC"] + list(SINGLES) + ["CTRL", "U2", "U3", "U4", "HIGH"]
-REDUCED = ["INERT", "SQ", "BS", "DOLLAR", "NL", "U2", "HIGH", "SP"]
+REDUCED = ["INERT", "SQ", "BS", "DQ", "DOLLAR", "NL", "U2", "HIGH", "SP"]
 
 
 def token(cls, name):
@@ -332,7 +332,7 @@ def run():
         "C17", "other",
         "Bounded symbolic execution of the MIR of arg::quote, arg::split (complete state machine), to_stfu8, from_stfu8 and append "
         "with strings as lists of symbolic bytes of concrete length; arguments are built from tokens that are classes of "
-        "bytes (the solver chooses the values): all shapes of <= 2 tokens over 17 classes and of 3 tokens over 8 classes "
+        "bytes (the solver chooses the values): all shapes of <= 2 tokens over 17 classes and of 3 tokens over 9 classes "
         "(thorough: 3 tokens over all classes, 4 over 6).  z3 decides split(quote(x)) == [x] and bashdec(quote(x)) == x for "
         "every value in every shape; the stfu8 model and the whole encoding are validated natively against the real code "
         "on concrete inputs each run (translator validation); counterexamples are replayed with the real functions and real bash.",
